@@ -9,7 +9,7 @@ NPS = 1_000_000_000
 
 META = {
     "property": "C17",
-    "proof_modules": ["PyodaProofs.C17"],
+    "proof_modules": ["PyodaProofs.C17", "PyodaProofs.C17Read"],
     "drivers": ["drv_text"],
     "theorems": [
         "Pyoda.C17.isoDate_fixed_width",
@@ -24,14 +24,21 @@ META = {
         "Pyoda.C17.instant_ends_in_Z",
         "Pyoda.C17.offset_shape",
         "Pyoda.C17.offset_whole_minutes_eq_py",
+        "Pyoda.C17.stdlib_reads_isoDate",
+        "Pyoda.C17.stdlib_reads_isoTime",
+        "Pyoda.C17.stdlib_reads_isoDateTime",
+        "Pyoda.C17.stdlib_reads_isoInstant",
+        "Pyoda.C17.stdlib_reads_offset",
     ],
     "trusted_base": [
         "CPython datetime.date/time/datetime isoformat()/fromisoformat() as the independent ISO-8601 reader/writer",
         "PyIso (Lean transcription of date.isoformat / time.isoformat) tied to CPython by suite text.pyiso",
+        "PyIsoParse (Lean transcription of the fromisoformat readers of Lib/_pydatetime.py) tied to _pydatetime by suite text.pyparse.ref and to the C implementation that fromisoformat really runs by suite text.pyparse.c",
     ],
     "partial": [
         "theorems cover the modelled straight-line ISO formatters (ISO date, extended/long/general ISO time, date-time, instant over date-time fields, offset g/G); the generic step language is covered by the direct oracles only",
-        "stdlib *parsing* (fromisoformat) is not modelled: both reading directions are direct oracles on the real code",
+        "the stdlib readers are modelled from the pure-Python reference Lib/_pydatetime.py (theorems stdlib_reads_*); the C implementation (_datetime) is tied to that model by correspondence only, on every text the patterns or the stdlib write and on the hostile texts where both stdlib implementations agree (they differ on some malformed texts; the count is reported as a note)",
+        "outside the reader model (!dom): the ISO week forms (YYYY-Www-D) and int() leniency of _pydatetime on non-digit slices (white space, underscore, sign, non-ASCII digits); the stdlib_reads_* theorems cover the extended / long / general time patterns, the extended / general date-time and instant patterns and offsets of whole minutes (g / G), not bcl_round_trip, variable_precision_iso or offsets with seconds (direct oracles only)",
         "Instant <-> (year, month, day) conversion is outside the Text model (day numbers are C01/C02); the harness passes date fields and checks day numbers against date.toordinal()",
     ],
     "rule": "distinct = distinct value per pattern (date / nanosecond-of-day / offset seconds / instant); non-trivial = every case formats, is read by the stdlib, is written by the stdlib and re-read by the pattern",
@@ -590,6 +597,7 @@ def run(ctx):
     import c07
     c07.run_iso_correspondence(ctx, "c17")
     c07.run_pyiso_correspondence(ctx)
+    import c17_pyparse; c17_pyparse.run(ctx)
     ctx.assumptions.append("the stdlib writes the UTC designator as +00:00; for Instant patterns the equivalent ISO spelling Z is substituted before parsing")
     ctx.assumptions.append("the stdlib carries microseconds: values are compared after truncation to microseconds when the stdlib reads, and microsecond values are used when the stdlib writes")
 
